@@ -16,6 +16,7 @@ EXPLANATION = (
     "(SNAPSHOT) a variable read is materialised as a fresh local at the point of the read (IR::Copy is never inlined), so a "
     "later assignment by a callee or closure cannot change a value already read; (SHARED-CAPTURE) closures refer to captured "
     "variables by their own V<id> name (no copy at closure creation), so closures of one activation share them."
+    ' (IRP-order guarded arms) a call is materialised by every emitter arm, guarded ones included.'
 )
 UNDECIDED = "run-time behaviour of preamble.lua helpers beyond GLOBAL-LEAK (a global temporary of a higher-order helper must not be held across a callback)."
 
